@@ -14,11 +14,11 @@ HERE = os.path.dirname(os.path.dirname(os.path.abspath(__file__)))
 
 # id: (technique, what the check gives, what is assumed / not decided)
 T = {
- 'C01': ('static analysis: workflow typestate (abstract interpretation of compile.py builders), guarded-accept dataflow, index-space typing, effect pairing',
+ 'C01': ('static analysis: workflow typestate (abstract interpretation of compile.py builders), guarded-accept dataflow, index-space typing, effect pairing, alternative-spelling agreement (ALTSPELL)',
          'Decides necessary structural clauses: every standard workflow configuration (levels 1-4 x error bound) ends with the facts MODEL, measurements restored, unfolded, real connectivity, native multi-qudit gates, routed, placed; candidates are committed only under cost < success_threshold with a data-flow link to the committed object; mapping bookkeeping is well typed over index spaces; measurement extraction/restoration are paired.',
          'Numerical equality of linear maps, epsilon budgets and schedule independence are NOT decided. Trusted: the pass effect table (sa/tables/pass_effects.py), index-space signatures (sa/tables/index_spaces.py).'),
- 'C02': ('static analysis: workflow typestate, registry agreement (REG), edge normal form (NF), conjunct coverage (CONJ), data-flow of the block sub-model',
-         'Decides: all circuit workflows end native+routed+placed and the direct workflows end native; replace-filter names are keys of the registry; is_compatible tests width, gate set, coupling and radixes on every path to True; edge-membership probes are normalised; the per-block sub-model is built from the block location.',
+ 'C02': ('static analysis: workflow typestate, registry agreement (REG), edge normal form (NF), conjunct coverage (CONJ), data-flow of the block sub-model, predicate specifications (PRED), predicate-implies-emit truth table (GUARDEMIT), alternative-spelling agreement (ALTSPELL)',
+         'Decides: all circuit workflows end native+routed+placed and the direct workflows end native; replace-filter names are keys of the registry; is_compatible tests width, gate set, coupling and radixes on every path to True; edge-membership probes are normalised; the per-block sub-model is built from the block location; the branch predicates mean what the typestate assumes; ZXGatePredicate implies that one gate of every alternative pair ZXZXZDecomposition can emit is native (all gate-set patterns enumerated).',
          'That synthesis actually reaches native gates, and verdict equality of is_compatible on concrete circuits, are NOT decided.'),
  'C03': ('static analysis: workflow typestate (target set before search), guarded accept, order-preserving chain, aligned parallel lists, radix belief contradiction',
          'Decides: direct workflows set model and target before synthesis; search returns only under the threshold (or the logged best-effort exit); list inputs flow through order-preserving steps only; permutation tables are enumerated in the same nesting order where zipped; radix-dependent constructions build circuits of that radix.',
@@ -41,8 +41,8 @@ T = {
  'C09': ('static analysis: effect pairing in the forward passes (PAIR), index-space typing (IXT), data-flow of the executable list (FLOW), eq/hash (HASH), aligned lists (ALIGN)',
          'Decides: every change of pi is mirrored by an emitted swap (and vice versa) on every path; emitted locations are physical; operations are emitted only if _can_exe held; mapping writes are well typed and placed after the forward pass; CouplingGraph hash is order independent.',
          'Equality of output and input under the mappings, termination of the uphill escape and connectivity of placements are NOT decided.'),
- 'C10': ('static analysis: guarded accept over all numerical passes (GA), radix belief contradiction (RADIX), rule-template protocol (TEMPLATE), effect restriction (EFF)',
-         'Decides: every numerical pass commits a candidate only under cost < threshold linked to that candidate and the pass target; qubit-only constructions are not fed radix-dependent gates; rule passes drop their source gate, introduce the advertised target and replace every collected point; removal passes only pop.',
+ 'C10': ('static analysis: guarded accept over all numerical passes (GA), radix belief contradiction (RADIX), rule-template protocol (TEMPLATE), effect restriction (EFF), alternative-spelling agreement (ALTSPELL), ordered-complement slices (STABLEMOVE), operation-parameter flow (PARAMFLOW)',
+         'Decides: every numerical pass commits a candidate only under cost < threshold linked to that candidate and the pass target; qubit-only constructions are not fed radix-dependent gates; rule passes drop their source gate, introduce the advertised target and replace every collected point; removal passes only pop; the two spellings of a rotation receive the same angle; moving the multiplexor target keeps the select order; re-wrapped blocks keep their operation\'s parameters.',
          'Algebraic correctness of rules and decompositions is arithmetic over reals and NOT decided.'),
  'C11': ('static analysis: CFG specifications of control passes (SPEC), co-update and data-flow rules for ForEachBlockPass (COUP, FLOW), capture/restore pairing (PAIR), field completeness (FIELDS)',
          'Decides: each control pass runs its bodies under exactly the predicate edges its specification names; ForEachBlockPass records point/op/error together from positions captured before the body ran and writes back once; rejected branches restore circuit and data; PassData.become restores every field.',
@@ -53,27 +53,27 @@ T = {
  'C13': ('static analysis: tainted-key guard analysis with table invariants (KEYGUARD), ownership checks (OWNER), error-chain path rules (MUST), monotone id allocator (FRESH)',
          'Decides: every client-keyed table access in the server loop is guarded, defaulted or covered by a listed invariant (so no request raises KeyError into the loop); handlers check ownership; task errors are forwarded worker -> server -> owning client -> exception, tagged with the compilation id; server mailbox ids are never reused.',
          'Multi-client interleavings are NOT enumerated; table invariants I1-I8 are asserted (their same-block maintenance is checked).'),
- 'C14': ('static analysis: classification of blocking receives in loops (RECV) and path rules over the shutdown chain (MUST)',
-         'Decides: a connection-loss exception in any receive/send loop propagates or reaches a terminating effect; losing an employee connection leads to shutdown, which tells and joins every employee, closes client connections and is forwarded on every role; client calls convert a closed connection into an exception.',
+ 'C14': ('static analysis: classification of blocking receives in loops (RECV) and path rules over the shutdown chain (MUST), exception coverage of thread functions (RECV:coverage)',
+         'Decides: a connection-loss exception in any receive/send loop propagates or reaches a terminating effect; losing an employee connection leads to shutdown, which tells and joins every employee, closes client connections and is forwarded on every role; client calls convert a closed connection into an exception; receive/send handlers in thread functions cover end-of-file and OS-level loss; every handle_disconnect override reaches the base version or shuts down.',
          'Bounded time, crash points mid-message and second crashes are NOT decided.'),
  'C15': ('static analysis: lock dataflow (LOCK), co-update (COUP), registry agreement of receipts (REG), exactly-one path rule (PATH), data-flow with linear forms (FLOW), complementary slices (PARTITION)',
-         'Decides: read-receipt lock discipline; schedule_tasks co-updates enqueue/count/idle(min)/cache; echoed receipts equal cached ids; exactly one completion notice per task per role; handle_waiting applies the clamped correction and keeps the range assertion; task lists are split into complementary slices.',
+         'Decides: read-receipt lock discipline; schedule_tasks co-updates enqueue/count/idle(min)/cache; echoed receipts equal cached ids; exactly one completion notice per task per role; handle_waiting applies the clamped correction and keeps the range assertion; task lists are split into complementary slices and the count reported upstream is that of the kept slice.',
          'Counter exactness under message crossings is value-level and NOT decided.'),
- 'C16': ('static analysis: field completeness (FIELDS), pickle writer/reader shape agreement (REDUCE), eq/hash consistency (HASH), reserved-key registry (REG)',
-         'Decides: copy/become/clear and the CouplingGraph copy-constructor carry every __init__ field; Circuit.__reduce__ and rebuild_circuit agree on state shape, gate indexing, dill flag and cycle grouping; every eq/hash pair in bqskit/ is consistent and order independent.',
+ 'C16': ('static analysis: field completeness (FIELDS), pickle writer/reader shape agreement (REDUCE), eq/hash consistency (HASH), reserved-key registry (REG), prefix-equality (zip) clause, deep-branch aliasing (DEEP), pickle new-args agreement (NEWARGS)',
+         'Decides: copy/become/clear and the CouplingGraph copy-constructor carry every __init__ field; Circuit.__reduce__ and rebuild_circuit agree on state shape, gate indexing, dill flag and cycle grouping; every eq/hash pair in bqskit/ is consistent and order independent and no __eq__ stops at the shorter operand; become(deepcopy=True) deep-copies nested containers; classes with __new__(**kwargs) return (args, kwargs) to pickle from what __new__ kept.',
          'Equality of concrete round-tripped objects and dill coverage of closures are NOT decided.'),
  'C17': ('static analysis: registry agreement between QASM writer and reader tables and between grammar, evaluator and the OpenQASM 2 function set (REG), translator data-flow (FLOW), register-offset cursor discipline and index-space typing in the reader (REGOFF)',
          'Decides: every statically named gate spelling the writer can emit is in the reader table with the same arity and constructor (known gaps reported); grammar function terminals = evaluator table = OpenQASM 2 set; every semantic grammar rule has a visitor method; translators go through the QASM codec; every register-local qubit index reaches the circuit only shifted by its register\'s offset, computed by a cursor that starts at 0 and advances by each register\'s size.',
          'Unitary agreement with Qiskit and parameter binding in nested definitions are NOT decided.'),
- 'C18': ('static analysis: eq/hash consistency (HASH), override pairing (OVERRIDE), value-numbered agreement of get_unitary/get_grad/get_unitary_and_grad (TRIAD), gradient literal shapes (GRADSHAPE, SIBTEMP)',
-         'Decides: all gate classes have consistent, order-independent eq/hash; inverse methods are overridden together; the three evaluation entry points of delegating gates are the same expressions; hand-written gradient literals have one matrix per parameter with the unitary\'s shape.',
+ 'C18': ('static analysis: eq/hash consistency (HASH), override pairing (OVERRIDE), value-numbered agreement of get_unitary/get_grad/get_unitary_and_grad (TRIAD), gradient literal shapes (GRADSHAPE, SIBTEMP), order-sensitive folds (KRONFOLD, INSERTORD)',
+         'Decides: all gate classes have consistent, order-independent eq/hash; inverse methods are overridden together; the three evaluation entry points of delegating gates are the same expressions; hand-written gradient literals have one matrix per parameter with the unitary\'s shape; Kronecker folds keep the accumulator on the left; index inserts run in ascending order.',
          'Unitarity, derivative values, calc_params and agreement with the binary expression backend are numerical and NOT decided.'),
- 'C19': ('static analysis: returns-receiver path rule, effect restriction on the receiver circuit (EFF), arg-min selection idiom over the four multi-start siblings (ARGMIN)',
-         'Decides: Circuit.instantiate returns self on every path; from instantiate and every instantiater only set_params mutates the receiver; all multi-start selectors keep the candidate of least Hilbert-Schmidt cost against (circuit, target).',
+ 'C19': ('static analysis: returns-receiver path rule, effect restriction on the receiver circuit (EFF), arg-min selection idiom over the four multi-start siblings, in both the sort and the running-minimum spelling (ARGMIN), parameter-vector order (CURSOR)',
+         'Decides: Circuit.instantiate returns self on every path; from instantiate and every instantiater only set_params mutates the receiver; all multi-start selectors keep the candidate of least Hilbert-Schmidt cost against (circuit, target); Circuit.params is the concatenation in iteration order.',
          'Everything about the native cost engine (compiled bqskitrs) is outside the source tree and NOT decided.'),
- 'C20': ('static analysis: undirected-edge normal form for writers and probes (NF), parallel-view derivation (FIELDS)',
-         'Decides only the representation invariant: edges are stored normalised, every membership probe is normalised or probes both orders, _edges/_adj/_mat are derived from one edge set, returned subgraphs are built through the constructor.',
-         'Shortest paths, subgraph enumeration and permutation matrices are algorithmic/numerical and NOT decided.'),
+ 'C20': ('static analysis: undirected-edge normal form for writers and probes (NF), parallel-view derivation (FIELDS), set-growing search specification (GROW), clone comparison of the UnitaryBuilder contractions (CLONE)',
+         'Decides only the representation invariant: edges are stored normalised, every membership probe is normalised or probes both orders, _edges/_adj/_mat are derived from one edge set, returned subgraphs are built through the constructor; the connected-subset search starts from every vertex, grows a private copy and draws candidates from the adjacency of every member; apply_left/right and their eval_ clones contract alike.',
+         'Shortest paths, permutation matrices and the values of contractions are algorithmic/numerical and NOT decided (of the enumeration only the growth rule is).'),
 }
 
 
